@@ -390,6 +390,16 @@ def run(tier, seed, replay=None):
                     n_pm += 1
                     if mv != real:
                         disagree("Rules.pat_matches <-> the loop body of config._match_words (remote mode)", {"pattern": pat, "exact": exact, "command": cmd}, mv, real)
+                        # the difference as a rule that fires although it does not match (or the reverse): the reference for
+                        # a command rule with glob characters is fnmatch on the whole command text (plus the bare form of a
+                        # trailing " *"), the documented matching of command rules
+                        import fnmatch as _fn
+                        if any(ch in pat for ch in "*?[") and cmd.strip() and pat.strip() and len(out.violations) < 30:
+                            want = _fn.fnmatch(cmd, pat) or (pat.endswith(" *") and cmd == pat[:-2])
+                            if (real == "1") != want:
+                                out.violations.append({"kind": "rule-match", "what": f"the rule 'deny {pat}' {'fires' if real == '1' else 'does not fire'} on the command {cmd!r} in a container; "
+                                                       f"matched as command rules are documented to match (fnmatch on the command text) it {'does' if want else 'does not'}",
+                                                       "case": {"pattern": pat, "exact": exact, "command": cmd}, "signature_text": f"rule-match pat={pat!r} exact={exact} cmd={cmd!r}"})
                     if not any(c in pat + cmd for c in "/~.$"):   # no path-shaped token: match_after must agree with _match_words
                         ws = cmd.split(" ")
                         if all(ws):
